@@ -371,3 +371,34 @@ def mapfn(tag, *args):
 
 def mapfn_ref(tag, *args):
     return ["m", tag, list(args)]
+
+
+def die_target(how, code, hold):
+    """Target of a bare LokyProcess: stay alive `hold` seconds, then end in the given way."""
+    import signal
+
+    time.sleep(hold)
+    _log("die", how=how, code=code)
+    if how == "os_exit":
+        os._exit(code)
+    elif how == "cexit":
+        import ctypes
+
+        ctypes.CDLL(None).exit(code)
+    elif how == "sys_exit":
+        sys.exit(code)
+    elif how == "return":
+        return
+    elif how == "signal":
+        sig = getattr(signal, code)
+        try:
+            signal.signal(sig, signal.SIG_DFL)
+        except (OSError, ValueError):
+            pass
+        import faulthandler
+
+        faulthandler.disable()
+        os.kill(os.getpid(), sig)
+        time.sleep(10)
+    elif how == "raise":
+        raise RuntimeError("target raises")
